@@ -340,23 +340,24 @@ Section P2.
   (** the chunks of one layer that is not there yet *)
   Lemma do_chunks_ok s0 l cs_all :
     In l layers -> aget N.eqb (dhex (ldg l)) (s2_chunks sv) = Some cs_all ->
-    forall cs i r failed,
+    forall fresh cs i r failed,
       (forall j c, nth_error cs j = Some c -> nth_error cs_all (i + j) = Some c) ->
       Rok2 good s0 r -> has_blob size_of (rs2 r) (dhex (ldg l)) (size_of (dhex (ldg l))) = false ->
-      let res := do_chunks size_of emp r (dhex (ldg l)) cs i failed in
+      let res := do_chunks size_of emp fresh r (dhex (ldg l)) cs i failed in
       Rok2 good s0 (fst res) /\ lframe (rs2 r) (rs2 (fst res)) /\
       (forall j, In j (written (rs2 r) (dhex (ldg l))) -> In j (written (rs2 (fst res)) (dhex (ldg l)))) /\
       (snd res = false -> failed = false /\ forall j c, nth_error cs j = Some c -> In (i + j)%nat (written (rs2 (fst res)) (dhex (ldg l)))) /\
       (forallb ck_ok cs = true -> snd res = failed).
   Proof.
-    intros Hl Ha. set (h := dhex (ldg l)) in *.
+    intros Hl Ha fresh. set (h := dhex (ldg l)) in *.
     induction cs as [|c cs IH]; intros i r failed Hnth HR Hnb; cbn [do_chunks].
     - cbn. split; [exact HR|]. split; [apply lframe_refl|]. split; [auto|]. split; [|auto]. intros ->. split; [reflexivity|]. intros j c Hj. destruct j; discriminate.
     - assert (Hc0 : nth_error cs_all i = Some c) by (rewrite <- (Nat.add_0_r i); apply Hnth; reflexivity).
       assert (Hnth' : forall j c', nth_error cs j = Some c' -> nth_error cs_all (S i + j) = Some c').
       { intros j c' Hj. replace (S i + j)%nat with (i + S j)%nat by lia. apply Hnth. exact Hj. }
-      destruct (has_rec size_of (rs2 r) (ck_key c)) eqn:Erec.
-      + (* the record is there: so is the chunk *)
+      destruct (negb fresh && has_rec size_of (rs2 r) (ck_key c)) eqn:Erec0.
+      + (* the record is there and the scratch file held data when it was opened: the chunk is in it *)
+        assert (Erec : has_rec size_of (rs2 r) (ck_key c) = true) by (apply andb_true_iff in Erec0; apply Erec0).
         destruct (IH (S i) r failed Hnth' HR Hnb) as [I1 [I2 [I3 [I4 I5]]]]. split; [exact I1|]. split; [exact I2|]. split; [exact I3|]. split.
         * intros Hf. destruct (I4 Hf) as [-> I4']. split; [reflexivity|]. intros j c' Hj. destruct j.
           -- injection Hj as <-. rewrite Nat.add_0_r. apply I3.
@@ -424,8 +425,9 @@ Section P2.
     unfold do_layer. rewrite (proj2 (N.eqb_neq _ _) G3). set (h := dhex (ldg l)) in *. destruct (has_blob size_of (rs2 r) h (lsz l)) eqn:Ehb.
     - cbn. split; [exact HR|]. split; [apply stable_refl|]. split; [|auto]. intros _. apply has_blob_okb; [apply (g_b _ (Rok2_now _ _ _ HR)) | exact Hl | exact Ehb].
     - rewrite G2 in Ehb. rewrite Ec.
-      destruct (do_chunks_ok s0 l cs Hl Ha cs 0%nat r false (fun j c H => H) HR Ehb) as [I1 [I2 [I3 [I4 I5]]]].
-      fold h in I1, I2, I3, I4, I5. destruct (do_chunks size_of emp r h cs 0 false) as [r1 failed] eqn:Ed. cbn [fst snd] in *.
+      set (fresh := match written (rs2 r) h with [] => true | _ => false end).
+      destruct (do_chunks_ok s0 l cs Hl Ha fresh cs 0%nat r false (fun j c H => H) HR Ehb) as [I1 [I2 [I3 [I4 I5]]]].
+      fold h in I1, I2, I3, I4, I5. destruct (do_chunks size_of emp fresh r h cs 0 false) as [r1 failed] eqn:Ed. cbn [fst snd] in *.
       destruct failed.
       + cbn. split; [exact I1|]. split; [apply lframe_stable; exact I2|]. split; [discriminate|].
         intros Hh. specialize (I5 (honest_chunks h cs Hh Ha)). discriminate.
